@@ -11,11 +11,16 @@ One JSON object per input line, one per output line.
         item = {"path":rel} | {"sub":ref,"items":[…]} | {"list":ref,"rels":[rel,…]} | {"fail":true}
                | {"obj":ref,"rem":dir,"dirmode":bool,"items":[…]}   (a config / directory given as a Path object)
   {"op":"run","cwd":c,"cpd":null|d,"items":[…]}           → the same for `runItems` (a command line), plus "nofail", "stable"
+  {"op":"runfs","names":[p,…],"edges":[[from,seg,to],…],"cwd":k,"cpd":null|d,"items":[…]}
+        → `runItemsF` over the file system given by the table (directory 0 = "/"): {"ok","trace","spec","good","exist","nofail","cwd":phys,"cpd"}
+  {"op":"checktype","sat":bool,"v":s,"default":null|s} → {"r":"path"|"str"|"reject"}   (`checkTypePath`)
+  {"op":"mkarg","obj":{"relative","absolute","cwd"}|null,"path":p,"expanded":e,"cwdarg":null|c,"oscwd":c} → mkPathArg
 -/
 import Lean.Data.Json
 import Jap.Core.PathMode
 import Jap.Gen.PathFlags
 import Jap.Lemmas.PathMode
+import Jap.Core.PathModeFS
 
 open Lean Jap.PathMode
 
@@ -99,6 +104,37 @@ def step (j : Json) : Json :=
       ("nofail", .bool (noFailItems items)), ("stable", .bool (stableItems s.cwd items)),
       ("cwd", .str (String.ofList r.st.cwd)),
       ("cpd", match r.st.cpd with | some d => .str (String.ofList d) | none => .null)]
+  | "runfs" =>
+    let names := (getStrs j "names").map String.toList
+    let edges : List (Nat × P × Nat) := match j.getObjVal? "edges" with
+      | .ok (.arr xs) => xs.toList.filterMap fun e => match e with
+        | .arr #[a, .str sg, b] => match a.getNat?, b.getNat? with
+          | .ok a, .ok b => some (a, sg.toList, b)
+          | _, _ => none
+        | _ => none
+      | _ => []
+    let fs := TableFS.toFS ⟨names, edges⟩
+    let cwd := match j.getObjVal? "cwd" with | .ok v => (v.getNat?.toOption.getD 0) | _ => 0
+    let s : StF Nat := ⟨cwd, (getStrOpt j "cpd").map String.toList⟩
+    let items := itemsOf ((j.getObjVal? "items").toOption.getD (.arr #[]))
+    let r := runItemsF fs items s
+    Json.mkObj [("ok", .bool r.ok), ("trace", .arr (r.trace.map resolvedToJson).toArray),
+      ("spec", .arr ((specItemsF fs cwd items).map resolvedToJson).toArray),
+      ("good", .bool (goodItemsF fs cwd items)), ("exist", .bool (existItemsF fs cwd items)),
+      ("nofail", .bool (noFailItems items)),
+      ("cwd", .str (String.ofList (fs.phys r.st.cwd))),
+      ("cpd", match r.st.cpd with | some d => .str (String.ofList d) | none => .null)]
+  | "mkarg" =>
+    let arg : PathArg := match j.getObjVal? "obj" with
+      | .ok (.obj _) =>
+        let o := (j.getObjVal? "obj").toOption.getD .null
+        .obj ⟨(getStr o "relative").toList, (getStr o "absolute").toList, (getStr o "cwd").toList⟩
+      | _ => .spelling (getStr j "path").toList (getStr j "expanded").toList
+    let p := mkPathArg arg ((getStrOpt j "cwdarg").map String.toList) (getStr j "oscwd").toList
+    Json.mkObj [("relative", .str (String.ofList p.relative)), ("absolute", .str (String.ofList p.absolute)), ("cwd", .str (String.ofList p.cwd))]
+  | "checktype" =>
+    let o := checkTypePath (getBool j "sat") (getStr j "v").toList ((getStrOpt j "default").map String.toList)
+    Json.mkObj [("r", .str (match o with | .path => "path" | .str => "str" | .reject => "reject"))]
   | op => Json.mkObj [("bad-op", .str op)]
 
 partial def loop (h : IO.FS.Stream) (out : IO.FS.Stream) : IO Unit := do
